@@ -299,7 +299,8 @@ def s_pair(draw):
         g = {'type': 'wheel', 'n_teeth': draw(teeth), 'helix': hx, 'pressure': [pa, 'deg'],
              'module': draw(_qs('Length', -4, -2)) if draw(st.integers(0, 5)) else None,
              'face_width': opt(_qs('Length', -3, -1))}
-        h = {'type': 'worm', 'n_starts': draw(st.integers(1, 4)), 'helix': hx, 'pressure': [pa, 'deg'],
+        hx_worm = hx if draw(st.integers(0, 2)) else draw(_angle(st.floats(1, G.WORM[pa][0] * 0.999)))
+        h = {'type': 'worm', 'n_starts': draw(st.integers(1, 4)), 'helix': hx_worm, 'pressure': [pa, 'deg'],
              'ref_diameter': opt(_qs('Length', -3, -1))}
     case['g'], case['h'] = g, h
     if draw(st.integers(0, 2)) == 0:
